@@ -119,6 +119,8 @@ class PDFTextDevice(PDFDevice):
             wordspace = 0
         dxscale = 0.001 * fontsize * scaling
         if font.is_vertical():
+            # ISO 32000-1 9.4.4: the horizontal scaling Th applies to the horizontal
+            # displacement tx only; ty = (w1 - Tj/1000) * Tfs + Tc + Tw is not scaled.
             textstate.linematrix = self.render_string_vertical(
                 seq,
                 matrix,
@@ -126,10 +128,10 @@ class PDFTextDevice(PDFDevice):
                 font,
                 fontsize,
                 scaling,
-                charspace,
+                textstate.charspace,
                 wordspace,
                 rise,
-                dxscale,
+                0.001 * fontsize,
                 ncs,
                 graphicstate,
             )
